@@ -395,7 +395,7 @@ def run_batch(check, tier, seed, nproc=None, quiet=False):
         "known_findings_hit": [{"cls": e["cls"], "site": e["site"], "runs": n} for e, v, n in known_hits],
         "harness_errors": len(errors),
         "exhaustive": False,
-        "determinism_selftest": None if selftest is None else {"runs": selftest["runs"], "passes": selftest["passes"], "mismatches": len(selftest["mismatches"])},
+        "determinism_selftest": None if selftest is None else {"runs": selftest["runs"], "passes": selftest["passes"], "mismatches": len(selftest["mismatches"]), "other_hashseed": selftest.get("other_hashseed")},
     }
     try:
         from . import corpus
@@ -480,6 +480,18 @@ def determinism_selftest(check, tier, seed, n, nproc, fresh=True):
         if A[i] != B[i]:
             res["mismatches"].append({"idx": i, "A": A[i], "B": B[i], "pass": "same interpreter, other worker/order"})
     if fresh:
+        # informational pass D: another hash seed (set / dict-of-object iteration orders change); a difference here is a
+        # property of the library worth knowing about, not a harness failure, so it is reported but does not fail the run
+        try:
+            envd = dict(os.environ, PYTHONHASHSEED="4242", ATOMSIM_KEEP_HASHSEED="1", MPLBACKEND="agg", VERIF_SEED=str(seed))
+            nd = min(n, 16)
+            pd_ = subprocess.run([PY, "-m", "atomsim.check", check.ID, "--digests", str(nd), "--tier", tier], cwd=VERIF, env=envd, capture_output=True, text=True, timeout=3000)
+            lined = [l for l in pd_.stdout.splitlines() if l.startswith("DIGESTS")]
+            if lined:
+                D = {int(k): v for k, v in json.loads(lined[0][7:]).items()}
+                res["other_hashseed"] = {"runs": nd, "differing": [i for i in range(nd) if A[i] != D.get(i)]}
+        except Exception as e:
+            res["other_hashseed"] = {"error": str(e)[:200]}
         env = dict(os.environ, PYTHONHASHSEED="0", MPLBACKEND="agg", VERIF_SEED=str(seed))
         p = subprocess.run([PY, "-m", "atomsim.check", check.ID, "--digests", str(n), "--tier", tier], cwd=VERIF, env=env, capture_output=True, text=True, timeout=3000)
         line = [l for l in p.stdout.splitlines() if l.startswith("DIGESTS")]
@@ -533,7 +545,7 @@ def main(argv=None):
     ap.add_argument("--selftest", type=int, default=None, help="run the determinism self-test on N indices and exit")
     args = ap.parse_args(argv)
 
-    if os.environ.get("PYTHONHASHSEED") != "0" or os.environ.get("MPLBACKEND") != "agg":
+    if (os.environ.get("PYTHONHASHSEED") != "0" and not os.environ.get("ATOMSIM_KEEP_HASHSEED")) or os.environ.get("MPLBACKEND") != "agg":
         env = dict(os.environ, PYTHONHASHSEED="0", MPLBACKEND="agg")
         os.execve(PY, [PY, "-m", "atomsim.check"] + (argv if argv is not None else sys.argv[1:]), env)
 
